@@ -129,12 +129,114 @@ impl Prop for Rejections {
     }
 }
 
+// ------------------------------------------------------------ declared order (L0 + L1)
+
+/// The receiver written somewhere else than first, parameters of pairwise different types.
+#[derive(Clone, Serialize, Deserialize)]
+pub struct OrderCase {
+    /// parameter types in declared order; `self` marks the receiver
+    pub params: Vec<String>,
+    pub w: u64,
+    pub on_vfunc: bool,
+}
+pub struct DeclaredOrder;
+impl Prop for DeclaredOrder {
+    type Case = OrderCase;
+    fn name(&self) -> String {
+        "C05/declared-order".into()
+    }
+    fn rule(&self) -> String {
+        "one impl (or virtual) function with 1-5 parameters of pairwise different types and the receiver written at any position among them (first, in the middle, last). Oracle: the build is an error, or the emitted method takes the receiver first and then exactly the declared parameters with their declared names and types in declared order (syn view). Non-trivial: receiver not first and >= 2 parameters before it".into()
+    }
+    fn gen(&self, t: &mut Tape) -> OrderCase {
+        let pool = ["u8", "u16", "u32", "u64", "i8", "i16", "*const u8", "*mut u32", "bool", "i64"];
+        let n = 1 + t.below(5) as usize;
+        let start = t.below(pool.len() as u64) as usize;
+        let mut params: Vec<String> = (0..n).map(|k| pool[(start + k) % pool.len()].to_string()).collect();
+        let pos = t.below(n as u64 + 1) as usize;
+        params.insert(pos, "self".into());
+        OrderCase {
+            params,
+            w: if t.chance(1, 2) { 8 } else { 4 },
+            on_vfunc: t.chance(1, 3),
+        }
+    }
+    fn judge(&self, c: &OrderCase) -> Outcome {
+        let parse_ty = |s: &str| -> Ty {
+            if let Some(r) = s.strip_prefix("*const ") {
+                Ty::n(r).cptr()
+            } else if let Some(r) = s.strip_prefix("*mut ") {
+                Ty::n(r).mptr()
+            } else {
+                Ty::n(s)
+            }
+        };
+        let args: Vec<Arg> = c.params.iter().enumerate().map(|(i, p)| if p == "self" { Arg::MutSelf } else { Arg::Named(format!("p{i}"), parse_ty(p)) }).collect();
+        let f = Func {
+            more: vec![],
+            sty: 0,
+            vis: true,
+            name: "f".into(),
+            doc: vec![],
+            args,
+            ret: Some(Ty::n("u32")),
+            addr: if c.on_vfunc { None } else { Some(Num::d(0x1000)) },
+            index: None,
+            cc: None,
+        };
+        let mut td = TypeDef {
+            vis: true,
+            name: "T".into(),
+            fields: vec![Field::new("x", Ty::n("u32"))],
+            ..Default::default()
+        };
+        let mut m = Mod {
+            path: vec!["m".into()],
+            ..Default::default()
+        };
+        if c.on_vfunc {
+            td.vft = Some(Vft { size: None, funcs: vec![f] });
+            td.fields.clear();
+        } else {
+            m.impls.push(Impl { ty: "T".into(), funcs: vec![f] });
+        }
+        m.items.push(Item::Type(td));
+        let prog = Prog { mods: vec![m] };
+        let pos = c.params.iter().position(|p| p == "self").unwrap_or(0);
+        let nontrivial = pos >= 2;
+        let class = format!("receiver-at:{}", pos.min(3));
+        let built = match build_prog(&prog, c.w as usize) {
+            Res::Panic(p) => return Outcome::fail("panic", p),
+            Res::Err(_) => return Outcome::pass(nontrivial).class(&class).class("rejected"),
+            Res::Ok(b) => b,
+        };
+        let v = match crate::rsview::view(&built.files["m.rs"]) {
+            Ok(v) => v,
+            Err(e) => return Outcome::fail("unparsable", e),
+        };
+        let Some(mv) = v.method("T", "f") else { return Outcome::fail("method-missing", "T::f not emitted".into()) };
+        let want: Vec<(String, String)> = c.params.iter().enumerate().filter(|(_, p)| *p != "self").map(|(i, p)| (format!("p{i}"), p.replace(' ', ""))).collect();
+        if mv.receiver.as_deref() != Some("&mut self") || mv.args != want {
+            return Outcome::fail(
+                "wrong-order",
+                format!("declared ({}) ; emitted receiver {:?} and parameters {:?}, expected the receiver first and then {:?}", c.params.join(", "), mv.receiver, mv.args, want),
+            )
+            .class(&class);
+        }
+        Outcome::pass(nontrivial).class(&class).class("accepted")
+    }
+    fn show(&self, c: &OrderCase) -> Value {
+        json!({"declared": c.params, "width": c.w, "virtual": c.on_vfunc})
+    }
+}
+
 pub fn props() -> Vec<Box<dyn DynProp>> {
-    vec![Box::new(Calls), Box::new(Rejections)]
+    vec![Box::new(Calls), Box::new(Rejections), Box::new(DeclaredOrder)]
 }
 
 pub fn run(ctx: &mut Ctx) {
     let q = ctx.quick();
     ctx.run(&Rejections, &Params::new(if q { 200 } else { 2000 }, 2, 6));
+    ctx.run(&DeclaredOrder, &Params::new(if q { 3000 } else { 30_000 }, 6, 12));
     ctx.run(&Calls, &Params::new(if q { 1200 } else { 40_000 }, 200, 3000).shrink(60));
 }
